@@ -164,6 +164,8 @@ def run_schedule(impl, actors_steps, strategy, line=False, dims=None, core_kw=No
                     nolock.append((aid, kind))
                     # the verdict is in; do not let the now interleaved byte stream run the schedule into its watchdog
                     raise RuntimeError("verif: transport call made without holding the transport lock")
+                if kind == "close" and hasattr(strategy, "armed") and aid == getattr(strategy, "victim", None):
+                    strategy.armed = True
                 s.yield_point("transport")
             sess.core.on_call = on_call
 
@@ -553,7 +555,16 @@ def run_case(case):
         lp = rng.choice([0.02, 0.1, 0.3]) if case.get("line") and case["impl"] == "sync" else 0.0
         if force_lp:
             lp = force_lp
-        if case["kind"] == "pct":
+        if force_lp and rng.random() < 0.6:
+            # the closing actor runs up to its transport close() at once and is then frozen for long stretches, wherever it is
+            strat = sched.LazyActor(case["seed"], 0, p=rng.choice([0.01, 0.03, 0.08]), stay=rng.choice([0.3, 0.6]), line_prob=lp)
+            stats["schedules_with_frozen_closer"] = stats.get("schedules_with_frozen_closer", 0) + 1
+        elif not force_lp and rng.random() < 0.1:
+            # one actor is frozen for long stretches wherever it happens to be (between two lines, if line events are on)
+            strat = sched.LazyActor(case["seed"], rng.randrange(nact), p=rng.choice([0.01, 0.03, 0.08]), stay=rng.choice([0.3, 0.6]), line_prob=lp)
+            strat.armed = True
+            stats["schedules_with_frozen_actor"] = stats.get("schedules_with_frozen_actor", 0) + 1
+        elif case["kind"] == "pct":
             strat = sched.PCT(case["seed"], nact, depth=rng.choice([1, 2, 3]), horizon=rng.choice([50, 200, 600]), line_prob=lp)
         else:
             strat = sched.RandomWalk(case["seed"], stay=rng.choice([0.3, 0.6, 0.85]), line_prob=lp)
